@@ -257,11 +257,36 @@ def linebreak_predicate_obligations(w):
             return True
         ors = {strip_casts(o) for o in v.pv.peel(v.pv._origins_local(0, frozenset()))}
         ok, why = False, 'returns %s' % sorted(v.describe(o) for o in ors)
+        def newline_pred(op):
+            if _is_newline_fn(op):
+                return True
+            for y in v.pv.peel(v.pv.origins_operand(op)):
+                if y[0] == 'agg' and v.pv.agg_rvalue(y).get('ak') == 'closure' and _newline_test_closure(w, v.pv.agg_rvalue(y)['def']['id']):
+                    return True
+            return False
+
+        def self_chars(op):
+            src = v.pv.peel(v.pv.origins_operand(op))
+            return bool(src) and all(y[0] == 'call' and not y[2] and (callee_path(v.pv.call_term(y)) or '').endswith('<impl str>::chars') and selfish(v.pv.call_term(y)['args'][0])
+                                     for y in src)
         if name == 'has_linebreak':
             if len(ors) == 1 and list(ors)[0][0] == 'call':
                 t = v.pv.call_term(list(ors)[0])
-                if (callee_path(t) or '').endswith('<impl str>::contains') and selfish(t['args'][0]) and _is_newline_fn(t['args'][1]):
+                p_ = callee_path(t) or ''
+                if p_.endswith('<impl str>::contains') and selfish(t['args'][0]) and newline_pred(t['args'][1]):
                     ok, why = True, 'self.contains(typst_syntax::is_newline)'
+                elif re.search(r'Iterator>?::any$', p_) and self_chars(t['args'][0]) and newline_pred(t['args'][1]):
+                    ok, why = True, 'self.chars().any(typst_syntax::is_newline)'
+                elif re.search(r'Option::<T>::is_some$', p_):
+                    # self.find(is_newline).is_some() / self.chars().find|position(is_newline).is_some()
+                    inner = v.pv.peel(v.pv.origins_operand(t['args'][0]))
+                    if len(inner) == 1 and next(iter(inner))[0] == 'call':
+                        it = v.pv.call_term(next(iter(inner)))
+                        ip_ = callee_path(it) or ''
+                        if ip_.endswith('<impl str>::find') and selfish(it['args'][0]) and newline_pred(it['args'][1]):
+                            ok, why = True, 'self.find(typst_syntax::is_newline).is_some()'
+                        elif re.search(r'Iterator>?::(find|position)$', ip_) and self_chars(it['args'][0]) and newline_pred(it['args'][1]):
+                            ok, why = True, 'self.chars().%s(typst_syntax::is_newline).is_some()' % ip_.rsplit('::', 1)[-1]
                 elif (callee_path(t) or '').endswith('<impl str>::contains'):
                     why = 'self.contains(%s): not the lexer\'s set of line-break characters' % t['args'][1].get('s', '?')
         else:
